@@ -283,6 +283,24 @@ def run(plan):
         if o.kind != "ok":
             res.fail(f"genuine handshake failed: {o.exc_type}", repr(o.exc))
             return
+        if plan.get("special"):
+            # among 65536 packet counters about one gives a ciphertext that reads like a bare 0xAA frame from
+            # offset 8 on (aa <length> ...): a response on which a confusion between the packet layers would show
+            from Crypto.Cipher import AES
+            conn = w.net.conns[-1]
+            skey = conn.state["keys"][-1]
+            inner = codec.v2_encode(dev.device_id, reply, magic=dev.resp_magic)
+            total = 6 + (len(inner) + 2 + (16 - (len(inner) + 2) % 16) % 16) + 32
+            want = total - 8 - 1
+            blocks = b"".join(c.to_bytes(2, "big") + inner[:14] for c in range(0x10000))
+            enc = AES.new(skey, AES.MODE_ECB).encrypt(blocks)
+            hit = next((c for c in range(0x10000) if enc[16 * c + 2] == 0xAA and enc[16 * c + 3] == want), None)
+            if hit is None:
+                res.exempt += 1
+                w.probe("no_frame_like_ciphertext_under_this_key")
+                return
+            dev.force_counter = hit
+            w.fire("frame_like_ciphertext")
         o = await s.do({"op": "send", "frame": "aa01", "retries": 1,
                         "net": [{"mutate": {"kind": "flip", "bit": plan["bit"]}}]})
         PE = w.ns.lan.ProtocolError
@@ -308,7 +326,7 @@ def run(plan):
         res.fail(f"liveness: {type(e).__name__}", str(e))
     res.take(w)
     res.add_fired(dev.fired)
-    res.key = (mode, plan.get("seed"), repr(plan.get("pairs", plan.get("bit"))), repr(plan.get("straddle")), plan.get("m"), plan.get("count"),
+    res.key = (mode, plan.get("seed"), repr(plan.get("pairs", plan.get("bit"))), repr(plan.get("straddle")), plan.get("m"), plan.get("count"), bool(plan.get("special")), plan["config"].get("key"),
                repr(plan.get("burst")))
     res.nontrivial = True
     return res
@@ -353,6 +371,13 @@ def space(tier):
     def tamper_lan(j, rng):
         return {"mode": "tamper_lan", "config": {"version": 3}, "m": lan_m, "bit": j, "seed": 5}
     sp.add("tamper_lan", nbits, tamper_lan, exhaustive=True)
+
+    def tamper_lan_special(j, rng):
+        # header bits (where the type / padding / size live) and a sample of the rest, on frame-like ciphertexts
+        bit = j % 64 if j % 3 else rng.randrange(nbits)
+        return {"mode": "tamper_lan", "config": {"version": 3, "key": rand_bytes(rng, 32).hex(), "token": rand_bytes(rng, 64).hex()},
+                "m": lan_m, "bit": bit, "seed": 5 + j, "special": True}
+    sp.add("tamper_lan_frame_like_ciphertext", 400 if tier == "quick" else 20_000, tamper_lan_special)
 
     def tamper_dec(j, rng):
         m = (TAMPER_LENS + [34, 120, 300])[j % (len(TAMPER_LENS) + 3)]
